@@ -302,6 +302,20 @@ func (w *World) Cleanup() {
 	}
 	os.RemoveAll(w.Dir)
 	w.Sim.Close()
+	// (same reason: parked goroutines of this run keep the world reachable)
+	w.Obs, w.Monitors = nil, nil
+	w.NodeLogs = [2][]string{}
+	for _, c := range []*SimChain{w.BTC, w.LBTC} {
+		if c != nil {
+			c.Txs, c.Swaps, c.byScriptHash = nil, nil, nil
+		}
+	}
+	if w.LN != nil {
+		w.LN.Payments, w.LN.Invoices = nil, nil
+	}
+	if curWorld == w {
+		curWorld = nil
+	}
 }
 
 // ProbeList returns probes sorted by name.
